@@ -14,11 +14,8 @@ def run_all(facts):
     out['r_flush'] = r_flush.run(facts)
     out['r_cursor'] = r_cursor.run(facts)
     out['r_clone_flow'] = r_clone_flow.run(facts, cg)
-    try:
-        from .rules import r_more
-        out.update(r_more.run(facts, cg))
-    except ImportError:
-        pass
+    from .rules import r_more
+    out.update(r_more.run(facts, cg))
     # position independent keys: no impl-block or closure ordinals in what identifies a violation
     for name, (inst, fnd) in out.items():
         for x in fnd:
